@@ -164,7 +164,9 @@ def main():
 
     # build the dependencies once, then run in parallel
     warm = sh(["cargo", "+nightly", "miri", "run", "--offline", "-q", "-p", "sweep", "--", "0"], timeout=1800)
-    if warm.returncode != 0:
+    # (undefined behaviour found already by the warm-up run is a finding of the sweep below, not a
+    # failure of the machinery)
+    if warm.returncode != 0 and "Undefined Behavior" not in (warm.stdout + warm.stderr):
         print("MACHINERY: Miri cannot run the sweep program:\n" + (warm.stdout + warm.stderr)[-2000:])
         return 2
     with ThreadPoolExecutor(max_workers=12) as ex:
